@@ -117,7 +117,9 @@ def py_r_sat(r, v): return any(py_within(bs, v) and py_gate(bs, v) for bs in r)
 
 # ----------------------------------------------------------------- universes
 TAGS = [(), (0,), (1,), ('a',), ('A',), ('a-',), ('a', 0), ('a', 'a'), (0, 'a'), ('-',), (U64 - 1,), ('00',),
-        ('a', 0, 0), (10,), ('10a',), (2,), ('b',)]
+        ('a', 0, 0), (10,), ('10a',), (2,), ('b',),
+        # numeric identifiers that collide when compared through f64 / i64
+        (9007199254740992,), (9007199254740993,), (U64 - 2,), ((1 << 63) - 1,), (1 << 63,)]
 BUILDS = [(), ('b',), (5, 'x')]
 
 def version_universe(tier, rng):
